@@ -264,6 +264,12 @@ public:
     //! \brief Returns the number of stored points.
     size_t getNumStored() const{ return points.size() / num_dimensions; }
 
+    //! \brief Discards all stored points and values.
+    void clear(){
+        points.clear();
+        values.clear();
+    }
+
 private:
     size_t const num_dimensions;
     std::vector<double> points, values;
